@@ -42,7 +42,7 @@ Section Flat.
   Hypothesis Hparse : forall k, parse_graph_base_node fo (name k) = Ok (A k).
   Notation tlinsR := (tlinsR name esym rlist rsym_o).
   Notation blinsR := (blinsR name esym rlist rsym_o).
-  Notation ring_items := (ring_items rsym_o).
+  Notation ring_items := (ring_items rsym_o false).
 
   Fixpoint run_flat (g : graph) (rt : ringtab) (l : list frec) : res (graph * ringtab) :=
     match l with
